@@ -18,7 +18,7 @@ import (
 // start and end time of every call are recorded.
 type verifListScript struct {
 	mu      sync.Mutex
-	pattern []int // 0 success, 1 transport error, 2 status 500, 3 malformed JSON, 4 status 404, 5/6/7 status 500/503/401 with an empty body, 8 success with an empty body, 9/10 status 200 whose body breaks off after 0 / 3 bytes, 11-15 status 204 / 202 [] / 304 / 302 / 201 [] (anything but 200 is a failed poll), 16-18 status 503 / 429 / 503 with a Retry-After field
+	pattern []int // 0 success, 1 transport error, 2 status 500, 3 malformed JSON, 4 status 404, 5/6/7 status 500/503/401 with an empty body, 8 success with an empty body, 9/10 status 200 whose body breaks off after 0 / 3 bytes, 11-15 status 204 / 202 [] / 304 / 302 / 201 [] (anything but 200 is a failed poll), 16-18 status 503 / 429 / 503 with a Retry-After field, 19/20 status 502 / transport error after the call has taken 30 ms
 	starts  []time.Time
 	ends    []time.Time
 	cancel  context.CancelFunc
@@ -98,6 +98,14 @@ func (s *verifListScript) RoundTrip(r *http.Request) (*http.Response, error) {
 		r := mk(503, "")
 		r.Header.Set("Retry-After", "Wed, 21 Oct 2037 07:28:00 GMT")
 		return r, nil
+	case 19:
+		// a list call that is slow to fail (an overloaded proxy answering after a while): the wait
+		// starts when the call has failed, the time the call took is no part of it
+		time.Sleep(30 * time.Millisecond)
+		return mk(502, "upstream timed out"), nil
+	case 20:
+		time.Sleep(30 * time.Millisecond)
+		return nil, errors.New("verif: scripted transport failure after 30 ms")
 	}
 	return mk(200, "[]"), nil
 }
@@ -140,6 +148,7 @@ func TestVerifC08Loop(t *testing.T) {
 	patterns = append(patterns, []int{9, 9, 9, 9, 10, 10, 9, 0, 10, 9, 9, 0})
 	patterns = append(patterns, []int{11, 11, 11, 12, 13, 14, 15, 0, 11, 12, 2, 13, 0})
 	patterns = append(patterns, []int{16, 17, 18, 16, 0, 17, 16, 2, 0})
+	patterns = append(patterns, []int{19, 19, 19, 20, 20, 19, 19, 20, 0, 19, 20, 0})
 	nrand := 10
 	if verifThorough() {
 		nrand = 60
